@@ -32,7 +32,7 @@ from __future__ import annotations
 
 import ast
 
-from ..astutil import attr_chain, bind_args, callee_name, calls, is_name, text, unwrap_await
+from ..astutil import call_recv, attr_chain, bind_args, callee_name, calls, is_name, text, unwrap_await
 from ..core import Result
 from ..model import AnchorMissing, Repo, fold_str, walk_no_nested
 
@@ -66,6 +66,15 @@ EXPECT_EVAL = {
 }
 
 
+CMP_HELPERS = ("_eq", "_lt", "_contains", "is_truthy")
+
+
+def _normalize(repo, f, **kw):
+    from ..normalize import normalize
+
+    return normalize(repo, f, **kw)
+
+
 def _norm_eval(fn_node, ev: str) -> str:
     """Reduce an evaluate body to a formula over L, R, T."""
     env = {}
@@ -94,7 +103,7 @@ def _norm_eval(fn_node, ev: str) -> str:
         def visit_Call(self, n):
             n = self.generic_visit(n)
             if isinstance(n.func, ast.Attribute) and n.func.attr in ("evaluate", "evaluate_async") and len(n.args) == 1 and is_name(n.args[0], "context"):
-                ch = attr_chain(n.func.value)
+                ch = attr_chain(call_recv(n))
                 if ch == ["self", "left"]:
                     return ast.Name("L", ast.Load())
                 if ch == ["self", "right"]:
@@ -141,40 +150,66 @@ def run(repo: Repo) -> Result:
         if b not in EXPECT_CLASS:
             res.add("C12-TABLE", f"{L}.BINARY_OPERATORS", f"unknown:{b}", f"binary operator {b} has no known expression class", mod.relpath, binops.lineno)
     pie = repo.func(f"{L}.parse_infix_expression")
-    branches = {}
-    for st in pie.node.body:
-        if isinstance(st, ast.If) and isinstance(st.test, ast.Compare) and text(st.test.left) == "token.kind":
-            comps = st.test.comparators[0]
-            toks = [text(e) for e in comps.elts] if isinstance(comps, ast.Tuple) else [text(comps)]
-            for t in toks:
-                branches.setdefault(t, []).append(st)
-    for b in bin_names:
-        res.ob(f"infix-branch:{b}")
-        br = branches.get(b, [])
-        if len(br) != 1:
-            res.add("C12-TABLE", pie.qual, f"branches:{b}={len(br)}", f"parse_infix_expression has {len(br)} branches for {b} (exactly one expected)", pie.file, pie.line)
-            continue
-        ret = br[0].body[0] if br[0].body and isinstance(br[0].body[0], ast.Return) else None
-        c = ret.value if ret is not None else None
-        ok = (
+    # The dispatch operator-token -> expression class, in either of the two forms a maintainer
+    # writes it: an `if token.kind == T: return Cls(token, left, <right operand>)` chain, or a
+    # module-level table {T: Cls} looked up with token.kind and called once.
+    dispatch: dict[str, list] = {}  # token -> [(class name, constructor call, line)]
+
+    def right_operand_ok(c) -> bool:
+        return (
             isinstance(c, ast.Call)
-            and callee_name(c) == EXPECT_CLASS.get(b)
             and len(c.args) == 3
             and is_name(c.args[0], "token")
             and is_name(c.args[1], "left")
             and isinstance(c.args[2], ast.Call)
             and callee_name(c.args[2]) == "parse_boolean_primitive"
-            and [text(a) for a in c.args[2].args] == ["env", "stream", "precedence"]
+            and [text(x) for x in c.args[2].args] == ["env", "stream", "precedence"]
         )
-        if not ok:
-            res.add("C12-TABLE", pie.qual, f"builds:{b}:{text(c)[:50] if c is not None else None}", f"the {b} branch must return {EXPECT_CLASS.get(b)}(token, left, parse_boolean_primitive(env, stream, precedence)); found `{text(c)[:80] if c is not None else None}`", pie.file, br[0].lineno)
-    for t in branches:
+
+    for st in pie.node.body:
+        if isinstance(st, ast.If) and isinstance(st.test, ast.Compare) and text(st.test.left) == "token.kind":
+            comps = st.test.comparators[0]
+            toks = [text(e) for e in comps.elts] if isinstance(comps, (ast.Tuple, ast.Set, ast.List)) else [text(comps)]
+            ret = st.body[0] if st.body and isinstance(st.body[0], ast.Return) else None
+            c = ret.value if ret is not None else None
+            for t in toks:
+                dispatch.setdefault(t, []).append((callee_name(c) if isinstance(c, ast.Call) else None, c, st.lineno))
+    # table form
+    for st in walk_no_nested(pie.node):
+        if isinstance(st, ast.Assign) and len(st.targets) == 1 and isinstance(st.targets[0], ast.Name):
+            v = st.value
+            tbl = None
+            if isinstance(v, ast.Call) and callee_name(v) == "get" and isinstance(v.func, ast.Attribute) and isinstance(v.func.value, ast.Name) and v.args and text(v.args[0]) == "token.kind":
+                tbl = v.func.value.id
+            elif isinstance(v, ast.Subscript) and isinstance(v.value, ast.Name) and text(v.slice) == "token.kind":
+                tbl = v.value.id
+            table = mod.assigns.get(tbl) if tbl else None
+            if isinstance(table, ast.Dict) and table.values and all(isinstance(x, ast.Name) and x.id in mod.classes for x in table.values):
+                var = st.targets[0].id
+                ctor = next((r.value for r in walk_no_nested(pie.node) if isinstance(r, ast.Return) and isinstance(r.value, ast.Call) and is_name(r.value.func, var)), None)
+                for k, cls_ in zip(table.keys, table.values):
+                    dispatch.setdefault(text(k), []).append((cls_.id, ctor, st.lineno))
+    for b in bin_names:
+        res.ob(f"infix-branch:{b}")
+        br = dispatch.get(b, [])
+        if len(br) != 1:
+            res.add("C12-TABLE", pie.qual, f"branches:{b}={len(br)}", f"parse_infix_expression has {len(br)} branches for {b} (exactly one expected)", pie.file, pie.line)
+            continue
+        cls_name, c, ln = br[0]
+        if cls_name != EXPECT_CLASS.get(b) or not right_operand_ok(c):
+            res.add("C12-TABLE", pie.qual, f"builds:{b}:{text(c)[:50] if c is not None else None}", f"the {b} branch must return {EXPECT_CLASS.get(b)}(token, left, parse_boolean_primitive(env, stream, precedence)); found `{cls_name}` / `{text(c)[:80] if c is not None else None}`", pie.file, ln)
+    for t in dispatch:
         res.ob(f"infix-extra:{t}")
         if t not in bin_names:
             res.add("C12-TABLE", pie.qual, f"extra-branch:{t}", f"parse_infix_expression handles {t}, which is not in BINARY_OPERATORS (unreachable or undeclared operator)", pie.file, pie.line)
     # precedence taken from the table
     res.ob("infix-precedence")
-    if "precedence = PRECEDENCES.get(token.kind, PRECEDENCE_LOWEST)" not in text(pie.node):
+    psrc = [st.value for st in walk_no_nested(pie.node) if isinstance(st, ast.Assign) and any(is_name(t, "precedence") for t in st.targets)]
+    p_ok = len(psrc) == 1 and (
+        (isinstance(psrc[0], ast.Call) and callee_name(psrc[0]) == "get" and text(psrc[0].func.value) == "PRECEDENCES" and psrc[0].args and text(psrc[0].args[0]) == "token.kind" and (len(psrc[0].args) == 1 or text(psrc[0].args[1]) == "PRECEDENCE_LOWEST"))
+        or (isinstance(psrc[0], ast.Subscript) and text(psrc[0].value) == "PRECEDENCES" and text(psrc[0].slice) == "token.kind")
+    )
+    if not p_ok:
         res.add("C12-TABLE", pie.qual, "precedence-source", "parse_infix_expression must take the right operand's binding power from PRECEDENCES[token.kind]", pie.file, pie.line)
 
     # ---- C12-ASSOC -------------------------------------------------------------
@@ -226,7 +261,7 @@ def run(repo: Repo) -> Result:
             if f is None:
                 res.add("C12-ORDER", c.qual, f"{m}:missing", f"{c.qual} must define {m}", c.file, c.node.lineno)
                 continue
-            got = _norm_eval(f.node, m)
+            got = _norm_eval(_normalize(repo, f, keep=CMP_HELPERS, aliases=False), m)  # `_le(token, l, r)`-style helpers inlined
             if got != want:
                 res.add("C12-ORDER", f.qual, f"formula:{got[:50]}", f"{f.qual} computes `{got}`; the operator means `{want}` (L/R = left/right operand values)", f.file, f.line)
             else:
@@ -237,7 +272,7 @@ def run(repo: Repo) -> Result:
         for m in ("evaluate", "evaluate_async"):
             f = c.methods[m]
             res.ob(f"{q}.{m}")
-            got = _norm_eval(f.node, m)
+            got = _norm_eval(_normalize(repo, f, keep=CMP_HELPERS, aliases=False), m)
             if got != want:
                 res.add("C12-ORDER", f.qual, f"formula:{got[:50]}", f"{f.qual} computes `{got}`; expected `{want}`", f.file, f.line)
     be = repo.cls(f"{L}.BooleanExpression")
@@ -285,7 +320,7 @@ def run(repo: Repo) -> Result:
                     t = unwrap_await(t.operand)
                 if isinstance(t, ast.Call) and callee_name(t) in ("evaluate", "evaluate_async") and isinstance(t.func, ast.Attribute):
                     n_tests += 1
-                    recv = t.func.value
+                    recv = call_recv(t)
                     res.ob(f"truth-test:{f.qual}:{text(recv)}")
                     ch = attr_chain(recv)
                     ok = False
@@ -321,18 +356,8 @@ def run(repo: Repo) -> Result:
     last = lt.node.body[-1]
     if not (isinstance(last, ast.Raise) and "LiquidTypeError" in text(last)):
         res.add("C12-TYPEERR", lt.qual, "fallthrough", "_lt must end in raise LiquidTypeError for operands it cannot order", lt.file, lt.line)
-    ifs = [s for s in lt.node.body if isinstance(s, ast.If)]
-    order = []
-    for s in ifs:
-        t = text(s.test)
-        if "bool" in t:
-            order.append("bool")
-        elif "int, float" in t:
-            order.append("num")
-        elif "str" in t and "isinstance(left, str) and isinstance(right, str)" in t:
-            order.append("str")
-    if "bool" not in order or "num" not in order or order.index("bool") > order.index("num"):
-        res.add("C12-TYPEERR", lt.qual, "bool-before-num", "_lt must exclude booleans before comparing numbers (True < 2 is not an ordering in Liquid)", lt.file, lt.line)
+    # booleans are excluded before numbers are compared: decided by C12-KINDS below (a Python `<`
+    # of the operands is reachable only for two strings or two non-bool numbers) — no text match.
     ct = repo.func(f"{L}._contains")
     res.ob(ct.qual)
     if not (isinstance(ct.node.body[-1], ast.Raise) and "LiquidTypeError" in text(ct.node.body[-1])):
@@ -350,7 +375,7 @@ def run(repo: Repo) -> Result:
 
     for fn_name in ("_eq", "_lt"):
         f = repo.func(f"{L}.{fn_name}")
-        hits = [(n, st, fl) for n, st, fl in path_states(f.node, {}, operand_cmp) if feasible(fl, st, ("left", "right"))]
+        hits = [(n, st, fl) for n, st, fl in path_states(f.node, {}, operand_cmp, module_consts=f.module.assigns) if feasible(fl, st, ("left", "right"))]
         res.ob(f"kinds:{f.qual}", 2)
         if not hits:
             raise AnchorMissing(f"{f.qual}: no comparison of the two operands found; re-derive C12-KINDS")
@@ -379,7 +404,7 @@ def run(repo: Repo) -> Result:
             exits[id(n.exc)] = n
     for operand, other in (("right", "left"), ("left", "right")):
         res.ob(f"falsy:{ct.qual}:{operand}")
-        hits = [(n, st, fl) for n, st, fl in path_states(ct.node, {operand: frozenset("NU")}, lambda n: id(n) in exits) if feasible(fl, st, ("left", "right"))]
+        hits = [(n, st, fl) for n, st, fl in path_states(ct.node, {operand: frozenset("NU")}, lambda n: id(n) in exits, module_consts=ct.module.assigns) if feasible(fl, st, ("left", "right"))]
         if not hits:
             raise AnchorMissing(f"{ct.qual}: no exit reachable with a nil {operand} operand; re-derive C12-FALSY")
         badx = set()
